@@ -726,11 +726,14 @@ pub fn run_c09(args: &Args, tier: &str, seed: u64) -> Report {
     for r in parts {
         rep.merge(r);
     }
-    rep.rule = format!("Every constructor/builder program of C10 (or a raw request with/without URI, or a response), followed by 0..6 further IppAttributes::add calls in shuffled order from a vocabulary containing job-id, job-uri, the three header attributes and ordinary attributes, rebuilt {trials} times with fresh maps; oracle: positions in the reference decoder's reading of to_bytes(): operation group first, attributes-charset 1st, attributes-natural-language 2nd, printer-uri (or job-uri when there is no printer-uri) 3rd, job-id 4th when printer-uri and job-id are both present. printer-uri together with job-uri is not generated (undefined by RFC 8011). evaluations = instances judged; distinct = by setup text.");
+    rep.rule = format!("Every constructor/builder program of C10 (or a raw request with/without URI, or a response), followed by 0..6 further IppAttributes::add calls in shuffled order from a vocabulary containing job-id, job-uri, the three header attributes and ordinary attributes, rebuilt {trials} times with fresh maps (how many cases showed more than one order of the unconstrained attributes is reported as evidence, not demanded: a sorting encoder shows one); oracle: positions in the reference decoder's reading of to_bytes(): operation group first, attributes-charset 1st, attributes-natural-language 2nd, printer-uri (or job-uri when there is no printer-uri) 3rd, job-id 4th when printer-uri and job-id are both present. printer-uri together with job-uri is not generated (undefined by RFC 8011). evaluations = instances judged; distinct = by setup text.");
     if only.is_none() {
         let e = rep.counters.get("cases_with_3plus_free_attributes").copied().unwrap_or(0);
         let m = rep.counters.get("cases_with_3plus_free_attributes_reordered").copied().unwrap_or(0);
-        rep.require(e > 30 && m * 2 > e, &format!("map iteration orders varied ({m}/{e} eligible cases saw more than one order of the remaining attributes)"));
+        // diversity is observed and reported, not demanded: an encoder that sorts the remaining attributes (or ordered containers)
+        // legitimately shows one order only
+        rep.require(e > 30, &format!("enough cases with >= 3 free attributes ({e})"));
+        rep.extra.insert("iteration_order_diversity".into(), J::Str(format!("{m}/{e} eligible cases saw more than one order of the remaining attributes on the wire across rebuilt instances")));
         rep.require(rep.counters.get("cases_with_printer_uri_and_job_id").copied().unwrap_or(0) > 50, "printer-uri + job-id cases");
         rep.require(rep.counters.get("cases_with_job_uri").copied().unwrap_or(0) > 10, "job-uri cases");
     }
